@@ -24,7 +24,8 @@ PROP = 'C18'
 PROP_FILE = 'Props/C18.v'
 THEOREMS = ['C18_tracker_is_translated', 'C18_tracker_new', 'C18_requests_per_visit', 'C18_requests_per_visit_text_guarded',
             'C18_requests_per_visit_text_refuted', 'C18_visit_ends_in_status', 'C18_tries', 'C18_tries_rule_from_filters',
-            'C18_then_left_alone', 'C18_crawl_terminates', 'C18_budget_used_up_means_finished']
+            'C18_then_left_alone', 'C18_crawl_terminates', 'C18_budget_used_up_means_finished',
+            'C18_status_code_classes_are_the_sources']
 TRUSTED = [
     'harness/translate/filters.py + coq/Lib/MiniPy.v for RedirectTracker and the filters (see C02)',
     'coq/Model/Visit.v: hand-written model of WebSession._process_response/_process_redirect/_process_authentication, '
@@ -471,7 +472,8 @@ def _plain_spec(s):
 
 
 def pregen(ctx):
-    return translator.generate(ctx.repo)
+    from harness.translate import consts
+    return translator.generate(ctx.repo) + consts.generate(ctx.repo)
 
 
 def correspondence(ctx):
